@@ -76,6 +76,12 @@ func makeAnnoCase(r *fw.Rng, thorough bool, format, form string, vp gen.VarProfi
 			vp.MaxInsSites = 0
 		}
 		ac.msa = gen.MakeVariantMSA(r, ref, nq, vp)
+		if fromAnno && r.Chance(0.3) {
+			// the reference is taken from the annotation; a query may well carry the name of the
+			// annotation's sequence record and is an ordinary query then
+			k := r.Intn(len(ac.msa.Rows))
+			ac.msa.Rows[k].ID, ac.msa.Rows[k].Desc = ac.an.RefName, ac.an.RefName
+		}
 		recs := append([]gen.FastaRec{}, ac.msa.Rows...)
 		if !fromAnno {
 			ac.refID = ac.an.RefName
